@@ -252,7 +252,7 @@ func runPath(prog *ssa.Program, fn *ssa.Function, cfg ExploreConfig, solver *Sol
 			p.endKind, p.endMsg = r.kind, r.msg
 			if r.kind == "budget" && p.stepLimitObligation {
 				p.endKind = "panic"
-				p.failHere("termination within the step bound ("+r.fn+")", "unwind", r.pos)
+				p.failHere("termination within the step bound ("+r.fn+")", "unwind", "")
 			}
 		case unsupported:
 			p.endKind, p.endMsg = "unsupported", string(r)
